@@ -4,6 +4,7 @@
 -/
 import Valida.Codec
 import Valida.Heap
+import Valida.Spec.Ser
 open Lean (Json)
 open Valida Valida.Codec ValidaGen
 
@@ -105,6 +106,62 @@ def handle (j : Json) : P Json := do
         | .ok i => encOutcome encCondLit (Heap.den h 64 i)
         | .error e => encExc e)
       pure (Json.mkObj [("outs", .arr (outs.map encOut).toArray), ("dens", .arr dens.toArray)])
+  | "parse_cond" => do
+      let spec ← decVal a[1]!
+      pure (encOutcome encCond (parseCond 200 spec))
+  | "parse_part" => do
+      match ← decVal a[1]! with
+      | .dict kvs => pure (encOutcome encPart (parsePart 200 kvs))
+      | _ => throw "parse_part: mapping expected"
+  | "parse_path" => do
+      let spec ← decVal a[1]!
+      pure (encOutcome (fun (r : Sniffed) => match r with
+        | .path p => Json.arr #["path", encPath p]
+        | .val v => Json.arr #["lit", encVal v]) (parsePathSpec 200 spec))
+  | "from_part_specs" => do
+      let parts ← (← arr a[1]!).toList.mapM decVal
+      pure (encOutcome encPath (fromPartSpecs 200 parts))
+  | "from_str" => do
+      let sTxt ← str a[1]!
+      let d ← str a[2]!
+      match d.toList with
+      | [c] => pure (encOutcome encPath (fromStr sTxt c))
+      | _ => throw "from_str: one-character delimiter expected"
+  | "parse_rule" => do
+      let spec ← decVal a[1]!
+      pure (encOutcome (fun (r : ParsedRule) => Json.mkObj [("rule", encRule r.rule), ("doc", encOptVal r.doc)])
+        (parseRule 200 spec))
+  | "parse_schema" => do
+      let spec ← decVal a[1]!
+      pure (encOutcome (fun (rs : List RuleM) => Json.arr (rs.map encRule).toArray) (parseSchema 200 spec))
+  | "dsl" => do
+      let cls ← decClass (← str a[1]!)
+      let name ← str a[2]!
+      let pos ← (← arr a[3]!).toList.mapM decArg
+      let kw ← (← arr a[4]!).toList.mapM (fun it => do
+        let p ← arr it
+        pure ((← str p[0]!), (← decArg p[1]!)))
+      pure (encOutcome encCond (Dsl.call Arg.lit cls name pos kw))
+  | "to_json" => do
+      let c ← decCond a[1]!
+      pure (encOutcome encVal (condToJson c))
+  | "to_part_specs" => do
+      let p ← decPath a[1]!
+      pure (encOutcome (fun (xs : List PyVal) => encVal (.list xs)) (toPartSpecs p))
+  | "rule_to_json" => do
+      let r ← decRule a[1]!
+      pure (encOutcome encVal (ruleToJson r))
+  | "schema_to_json" => do
+      let rs ← (← arr a[1]!).toList.mapM decRule
+      pure (encOutcome encVal (schemaToJson rs))
+  | "eq_cond" => do
+      pure (Json.bool (condEq (← decCond a[1]!) (← decCond a[2]!)))
+  | "eq_part" => do
+      pure (Json.bool (partEq (← decPart a[1]!) (← decPart a[2]!)))
+  | "eq_path" => do
+      pure (Json.bool (pathEq (← decPath a[1]!) (← decPath a[2]!)))
+  | "eq_rule" => do
+      pure (Json.bool (ruleEq (← decRule a[1]!) (← decRule a[2]!)))
   | "mkpart" => do
       let kind ← decPartKind (← str a[1]!)
       let key ← decDatumSpec a[2]!
